@@ -17,12 +17,18 @@ def run(tier, seed):
         cases.append(Case('agree_v%d_s%d_%d_o%d_a%d_%d' % (vk, s1, s2, o, a1, a2), 'crypto', 'zzDKG_qual_agreement', [vk & M, s1 & M, s2 & M, o, a1, a2]))
     # unsolicited (early) complaint answers naming participant 1, broadcast in round 1 before the shares
     # (order bit k set: participant k+1 receives its share before the vector)
-    for vk, s1, s2, a1, ek, o in itertools.product((0, 6), (-1, 0, 1, 2), (0,), (0, 1, 2), (1, 2, 3), (0, 1, 3)):
+    for vk, s1, s2, a1, ek, o in itertools.product((0, 6), (-1, 0, 1, 2), (0,), (0, 1, 2), (1, 2, 3), (0, 1, 3, 4, 5)):
         cases.append(Case('early_v%d_s%d_%d_a%d_e%d_o%d' % (vk, s1, s2, a1, ek, o), 'crypto', 'zzDKG_qual_agreement_early', [vk & M, s1 & M, s2 & M, o, a1, 0, ek]))
+    # Joint-Feldman: two honest participants with different interleavings across senders agree on the qualified dealers
+    for oa, ob in ((0, 1), (1, 2), (2, 0), (0, 0)):
+        for nh in ((1, 2, 3) if thorough else (2,)):
+            for ans in (False, True):
+                cases.append(Case('jf_agree_o%d%d_h%d_a%d' % (oa, ob, nh, int(ans)), 'crypto', 'zzC07_jf_agree', [oa, ob, nh, ans]))
     return run_check('C07', cases, tier, seed, setup=dkgcommon.SETUP,
         functions=['feldmanVSSQualState handlers, timeouts and End, run as a product of two honest participants of one dealer instance'],
         bounds={'configuration': 'n=4, t=1, Byzantine dealer 0, honest participants 1 and 2',
                 'grammar': 'vector kinds %s, private share kinds %s per participant, all four (share/vector) delivery orders, dealer answers %s per complainer; honest complaints are the ones the executed code emits and are routed to the other participant' % (vks, sks, aks),
-                'outside': 'Joint-Feldman summation over n instances (each instance is the object checked here; the sum is linear), n > 4, more Byzantine messages per round, the polynomial algebra of shares (uninterpreted), network assumptions'},
+                'Joint-Feldman': 'n=5, t=2: two honest participants (3 and 4) observe a Byzantine participant that is disqualified as a dealer and complains against another dealer, with different interleavings across senders: same set of disqualified dealers',
+                'outside': 'Joint-Feldman key summation itself (linear in the per-dealer data), n > 5, more Byzantine messages per round, the polynomial algebra of shares (uninterpreted), network assumptions'},
         assumptions=dkgcommon.ASSUME, trusted=dkgcommon.TRUSTED,
         explanation='relational bounded symbolic execution: the real code of two honest participants is run side by side on the same broadcasts; assertions: same error class from End, same group key and public-share vector on success, nobody honest is flagged or disqualified')
